@@ -307,11 +307,14 @@ def gen_abf(r, k, T):
 
 # ------------------------------------------------------------------------------------------------ metadynamics
 def gen_meta(r, k, T):
+    # the first four cases of every run: hills pending when the state is written (gridsUpdateFrequency does not
+    # divide newHillFrequency), keepHills on and off, values well inside the grid (no help from hills_off_grid)
+    forced = k < 4
     nv = r.choice([1, 1, 2])
-    use_grids = r.random() < 0.8
+    use_grids = True if forced else r.random() < 0.8
     tags = ["meta", "grids" if use_grids else "nogrids"]
     cfg = []
-    nice = r.random() < 0.7
+    nice = True if forced else r.random() < 0.7
     hw = r.choice([1.0, 2.0, 2.5])
     M = {"vars": [], "W": r.choice([0.125, 0.5, 1.0]), "hw": hw, "use_grids": use_grids, "keep": False, "wt": False,
          "bt": 300.0}
@@ -319,7 +322,7 @@ def gen_meta(r, k, T):
         w = r.choice([0.5, 1.0])
         nx = r.randint(6, 12)
         lo = V.dyadic(r, -4, -1, bits=2) if nice else r.choice([-3.123456789, -2.0 / 3.0 - 2])
-        expand = use_grids and nice and r.random() < 0.25
+        expand = use_grids and nice and not forced and r.random() < 0.25
         cfg += cv_block(i, width=w, lower=lo, upper=lo + nx * w, extra=["expandBoundaries on"] if expand else [])
         M["vars"].append({"w": w, "lower": lo, "upper": lo + nx * w, "nx": nx, "sigma": w * hw / 2.0, "expand": expand})
         if expand and "expandBoundaries" not in tags:
@@ -334,15 +337,17 @@ def gen_meta(r, k, T):
     if not use_grids:
         B.append("  useGrids off")
     else:
-        if r.random() < 0.4:
-            g = r.choice([1, 2, 4, 6])
+        if forced or r.random() < 0.4:
+            g = r.choice([4, 5, 6]) if forced else r.choice([1, 2, 4, 6])
+            if forced and freq % g == 0:
+                g = freq + 3
             B.append("  gridsUpdateFrequency %d" % g)
             tags.append("gfreq=%s" % ("freq" if g == freq else "other"))
             M["gfreq"] = g
             # hills deposited on a step that is not a multiple of gridsUpdateFrequency wait, unprojected, for the
             # next such step: writing the state projects them at once
             pending = (freq % g) != 0
-    if use_grids and r.random() < 0.4:      # keepHills is only parsed with grids
+    if (forced and k % 2 == 0) or (not forced and use_grids and r.random() < 0.4):      # keepHills is only parsed with grids
         B.append("  keepHills on")
         tags.append("keepHills")
         M["keep"] = True
@@ -352,10 +357,14 @@ def gen_meta(r, k, T):
         tags.append("wt")
         M["wt"], M["bt"] = True, bt
     B.append("}")
-    p_out = r.choice([0.0, 0.0, 0.2])
+    p_out = 0.0 if forced else r.choice([0.0, 0.0, 0.2])
     if p_out:
         tags.append("excursions")
     pos = walk(r, T, nv, lo=-3.0, hi=1.0, bits=3)
+    if forced:
+        tags.append("forced-pending")
+        mid = [v["lower"] + v["nx"] * v["w"] / 2 for v in M["vars"]]
+        pos = [[m + V.dyadic(r, -1.0, 1.0, bits=3) for m in mid] for _ in range(T)]
     if p_out:
         for t in range(T):
             if r.random() < p_out:
